@@ -1,17 +1,17 @@
 /* sitemap.h -- Lattice::SiteMap = std::map<std::string, Lattice::Site*> (DESIGN 3.2: std::map).
  * Include AFTER `struct Lattice_Site` is defined (//@struct Pomerol::Lattice::Site) and after strlabel.h.
  *
- * MODEL: the entries in iteration order as parallel arrays over k in [0,n):
- *     SM_label[k]  key (label id), strictly increasing (std::map iterates in key order; keys are unique)
- *     SM_orb[k], SM_spin[k]   OrbitalSize / SpinSize of the Site object the mapped pointer refers to
- *   The arrays are unbounded GLOBALS (one lattice per harness, n <= SM_NMAX): typed arrays read at a
- *   symbolic index are cheap for CBMC, separately allocated objects of symbolic size are not. `extern` without
- *   definition = arbitrary content.
- *   Dereferencing an iterator presents entry k through a cursor inside the iterator object (`pair`, `cur`):
- *   pair.first = label[k], pair.second = &cur, cur = Site{label[k], orb[k], spin[k]}; operator[] through
- *   a temporary.  (Writes to the caller's local iterator need no write-set check.)  This is exact for code that
- *   does not keep the reference beyond the iterator's lifetime and does not compare Site addresses; harnesses
- *   that need the identity of the Site object (getSite) provide the optional array `store` (A1).
+ * MODEL: the entries in iteration order, k in [0,n):
+ *     SM_site[k]   the Site object the mapped pointer of entry k refers to; its Label is the key of the entry
+ *                  (Lattice::addSite stores a site under its own label), keys strictly increasing in k
+ *                  (std::map iterates in key order; keys are unique)
+ *   SM_site and the ghost arrays are unbounded GLOBAL arrays (one lattice per harness, n <= SM_NMAX): typed
+ *   arrays read at a symbolic index are cheap for CBMC (array theory); separately allocated objects of symbolic
+ *   size and arrays of constant size are not.  `extern` without definition = arbitrary content.
+ *   Dereferencing an iterator yields a pair held INSIDE the iterator object (a local variable of the caller):
+ *   pair.first = SM_site[k].Label, pair.second = &cur, cur = copy of SM_site[k] (CBMC cannot bound-check pointers
+ *   into an unbounded array); operator[] through a temporary copy.  Exact for code that does not keep the Site
+ *   reference beyond the iterator's lifetime and does not compare Site addresses.
  *   GHOST data:
  *     glabel / gk   ONE ghost key: gk = its position or -1 if the map has no such key;
  *     SM_suf[0..n], SM_sq0..3[0..n]   suffix sums over the sites (spec functions from the property statement C18):
@@ -20,13 +20,16 @@
  *   only with existing keys (otherwise it would insert a null Site*).
  * ASSUMED (type invariant of the map + DEFINITION of the ghost sums, instantiated point-wise at the
  *   position that is dereferenced, against the one ghost key, which is arbitrary):
- *   A1  (only with `store`) the mapped pointer of entry k is &store[k], a Site with the content of entry k
  *   A2  key order: label[k] < label[gk] for k < gk, > for k > gk; label[k] != glabel if gk == -1
  *   A3  find(l)/operator[](l) answer with THE position of l (a function of the key: uninterpreted
  *       SITEPOS, = n if absent); SITEPOS(glabel) is gk (or n); SITEPOS(label[k]) = k
  *   A4  (only if m->sums) suf[k] = suf[k+1] + orb[k]*spin[k], sqZ[k] = sqZ[k+1] + (spin[k] > Z ? orb[k] : 0)
  *       (definition of the sums), all sums <= SM_TOTAL_MAX
  *   A5  (only if m->smax_on) spin[k] <= SM_SMAX   (domain restriction of that harness)
+ * NOTE for editors: index expressions are written with (it)->pos itself, never through a temporary (CBMC's array
+ *   theory adds constraints for every pair of syntactically different index expressions of an array), and the
+ *   macros avoid address-taken temporaries and writes through pointers (each costs a write-set check per
+ *   enclosing loop contract).
  */
 #ifndef VERIF_SITEMAP_H
 #define VERIF_SITEMAP_H
@@ -35,18 +38,20 @@
 #define SM_SMAX 4   /* the explicit sums below are written for 4 */
 #define SM_TOTAL_MAX 65536UL
 #define SM_NMAX 65536L
-#define SM_CAP __CPROVER_constant_infinity_uint   /* unbounded arrays: CBMC bit-blasts arrays of constant size */
-extern label_t SM_label[SM_CAP]; extern unsigned short SM_orb[SM_CAP], SM_spin[SM_CAP];
+#define SM_CAP __CPROVER_constant_infinity_uint
+extern struct Lattice_Site SM_site[SM_CAP];
 extern unsigned long SM_suf[SM_CAP], SM_sq0[SM_CAP], SM_sq1[SM_CAP], SM_sq2[SM_CAP], SM_sq3[SM_CAP];
+#define SM_label(k) (SM_site[k].Label)
+#define SM_orb(k) (SM_site[k].OrbitalSize)
+#define SM_spin(k) (SM_site[k].SpinSize)
 typedef struct SitePair { label_t first; struct Lattice_Site *second; } SitePair;
 typedef struct SiteMap {
   long n;
   label_t glabel; long gk;
   _Bool sums;                                       /* the harness uses the ghost sums (A4) */
   _Bool smax_on;
-  struct Lattice_Site *store;                       /* optional (may be null): the Site objects themselves, see SiteMapIt_arrow */
 } SiteMap;
-typedef struct SiteMapIt { SiteMap *m; long pos; SitePair pair; struct Lattice_Site cur; /* cursor */ } SiteMapIt;
+typedef struct SiteMapIt { SiteMap *m; long pos; SitePair pair; struct Lattice_Site cur; } SiteMapIt;
 long __CPROVER_uninterpreted_sitepos(label_t);
 #define SITEPOS(l) __CPROVER_uninterpreted_sitepos(l)
 
@@ -54,19 +59,21 @@ long __CPROVER_uninterpreted_sitepos(label_t);
 static inline _Bool SiteMap_wf_nosums(SiteMap *m)
 {
   return 0 <= m->n && m->n <= SM_NMAX && !m->sums &&
-         -1 <= m->gk && m->gk < m->n && m->store == (struct Lattice_Site *)0 &&
+         -1 <= m->gk && m->gk < m->n &&
          SITEPOS(m->glabel) == (m->gk >= 0 ? m->gk : m->n) &&
-         (m->gk >= 0 ==> SM_label[m->gk] == m->glabel);
+         (m->gk >= 0 ==> SM_label(m->gk) == m->glabel);
 }
 /* type invariant with the ghost sums (without the lemma L1 below) */
 static inline _Bool SiteMap_wf_base(SiteMap *m)
 {
   return 0 <= m->n && m->n <= SM_NMAX && m->sums &&
-         SM_suf[m->n] == 0 && SM_sq0[m->n] == 0 && SM_sq1[m->n] == 0 && SM_sq2[m->n] == 0 && SM_sq3[m->n] == 0 &&
-         SM_suf[0] <= SM_TOTAL_MAX &&
-         -1 <= m->gk && m->gk < m->n && m->store == (struct Lattice_Site *)0 &&
+         SM_suf[m->n] == 0 && SM_suf[0] <= SM_TOTAL_MAX &&
+#ifndef SM_NO_SQ
+         SM_sq0[m->n] == 0 && SM_sq1[m->n] == 0 && SM_sq2[m->n] == 0 && SM_sq3[m->n] == 0 &&
+#endif
+         -1 <= m->gk && m->gk < m->n &&
          SITEPOS(m->glabel) == (m->gk >= 0 ? m->gk : m->n) &&
-         (m->gk >= 0 ==> SM_label[m->gk] == m->glabel);
+         (m->gk >= 0 ==> SM_label(m->gk) == m->glabel);
 }
 #define SM_SQSUM(k) (SM_sq0[k] + SM_sq1[k] + SM_sq2[k] + SM_sq3[k])
 /* LEMMA L1 (consequence of the definitions A4 under A5; proved by induction over k in harness
@@ -74,7 +81,11 @@ static inline _Bool SiteMap_wf_base(SiteMap *m)
  *   spin[k] <= 4 for all k  ==>  sq0[0]+sq1[0]+sq2[0]+sq3[0] == suf[0]     (SUM_k orb*spin counted layer by layer) */
 static inline _Bool SiteMap_wf(SiteMap *m)
 {
+#ifdef SM_NO_SQ
+  return SiteMap_wf_base(m);
+#else
   return SiteMap_wf_base(m) && (m->smax_on ==> SM_SQSUM(0) == SM_suf[0]);
+#endif
 }
 #define SM_SQ(z, k) ((z) == 0 ? SM_sq0[k] : (z) == 1 ? SM_sq1[k] : (z) == 2 ? SM_sq2[k] : SM_sq3[k])
 /* SUM_{z' >= z} sqz'[k] */
@@ -87,51 +98,48 @@ static inline _Bool SiteMap_wf(SiteMap *m)
 #define op_eq_SiteMapIt_SiteMapIt(a, b) ((a)->pos == (b)->pos)
 #define SM_AX_Z(_k, sqz, _z) do { \
     __CPROVER_assume(sqz[(_k) + 1] <= SM_TOTAL_MAX); \
-    __CPROVER_assume(sqz[_k] == sqz[(_k) + 1] + (SM_spin[_k] > (_z) ? (unsigned long)SM_orb[_k] : 0UL)); \
+    __CPROVER_assume(sqz[_k] == sqz[(_k) + 1] + (SM_spin(_k) > (_z) ? (unsigned long)SM_orb(_k) : 0UL)); \
     __CPROVER_assume(sqz[_k] <= SM_TOTAL_MAX); } while (0)
+#ifdef SM_NO_SQ     /* harnesses that do not use the layer sums sqZ compile them out (fewer array reads) */
+#define SM_AX_SQ(_k) ((void)0)
+#else
+#define SM_AX_SQ(_k) do { SM_AX_Z(_k, SM_sq0, 0); SM_AX_Z(_k, SM_sq1, 1); SM_AX_Z(_k, SM_sq2, 2); SM_AX_Z(_k, SM_sq3, 3); } while (0)
+#endif
 #define SM_ASSUME_AT(_m, _k) do { \
-  if ((_m)->gk >= 0 && (_k) < (_m)->gk) __CPROVER_assume(SM_label[_k] < SM_label[(_m)->gk]);   /* A2 */ \
-  if ((_m)->gk >= 0 && (_k) > (_m)->gk) __CPROVER_assume(SM_label[_k] > SM_label[(_m)->gk]); \
-  if ((_m)->gk < 0) __CPROVER_assume(SM_label[_k] != (_m)->glabel); \
-  __CPROVER_assume(SITEPOS(SM_label[_k]) == (_k));                                       /* A3 */ \
-  if ((_m)->smax_on) __CPROVER_assume(SM_spin[_k] <= SM_SMAX);                           /* A5 */ \
+  if ((_m)->gk >= 0 && (_k) < (_m)->gk) __CPROVER_assume(SM_label(_k) < SM_label((_m)->gk));   /* A2 */ \
+  if ((_m)->gk >= 0 && (_k) > (_m)->gk) __CPROVER_assume(SM_label(_k) > SM_label((_m)->gk)); \
+  if ((_m)->gk < 0) __CPROVER_assume(SM_label(_k) != (_m)->glabel); \
+  __CPROVER_assume(SITEPOS(SM_label(_k)) == (_k));                                       /* A3 */ \
+  if ((_m)->smax_on) __CPROVER_assume(SM_spin(_k) <= SM_SMAX);                           /* A5 */ \
   if ((_m)->sums) {                                                                      /* A4 */ \
     __CPROVER_assume(SM_suf[(_k) + 1] <= SM_TOTAL_MAX); \
-    __CPROVER_assume(SM_suf[_k] == SM_suf[(_k) + 1] + (unsigned long)SM_orb[_k] * (unsigned long)SM_spin[_k]); \
+    __CPROVER_assume(SM_suf[_k] == SM_suf[(_k) + 1] + (unsigned long)SM_orb(_k) * (unsigned long)SM_spin(_k)); \
     __CPROVER_assume(SM_suf[_k] <= SM_TOTAL_MAX); \
-    SM_AX_Z(_k, SM_sq0, 0); SM_AX_Z(_k, SM_sq1, 1); SM_AX_Z(_k, SM_sq2, 2); SM_AX_Z(_k, SM_sq3, 3); \
+    SM_AX_SQ(_k); \
   } \
   } while (0)
-/* dereference: the cursor lives INSIDE the iterator (a local variable of the caller: no heap write);
- * if the harness provides `store`, the mapped pointer is &store[k] with the same content (A1) */
 #define SiteMapIt_arrow(it) ({ \
-  SiteMap *_m = (it)->m; long _k = (it)->pos; \
-  __CPROVER_assert(0 <= _k && _k < _m->n, "std::map iterator dereferenced only before end()"); \
-  SM_ASSUME_AT(_m, _k); \
-  (it)->cur.Label = SM_label[_k]; (it)->cur.OrbitalSize = SM_orb[_k]; (it)->cur.SpinSize = SM_spin[_k]; \
-  (it)->pair.first = SM_label[_k]; (it)->pair.second = &(it)->cur; \
-  if (_m->store != (struct Lattice_Site *)0) { \
-    __CPROVER_assume(_m->store[_k].Label == SM_label[_k] && _m->store[_k].OrbitalSize == SM_orb[_k] && _m->store[_k].SpinSize == SM_spin[_k]);  /* A1 */ \
-    (it)->pair.second = &_m->store[_k]; } \
+  __CPROVER_assert(0 <= (it)->pos && (it)->pos < (it)->m->n, "std::map iterator dereferenced only before end()"); \
+  SM_ASSUME_AT((it)->m, (it)->pos); \
+  (it)->cur = SM_site[(it)->pos]; (it)->pair.first = SM_label((it)->pos); (it)->pair.second = &(it)->cur; \
   &(it)->pair; })
+/* members of the iterator written by a dereference (for assigns clauses of loops that do not advance it) */
+#define SM_IT_CURSOR(it) (it).pair, (it).cur
 #define SiteMapIt_mul(it) SiteMapIt_arrow(it)
 /* find: the position of the key (A3), end() if absent */
 #define SiteMap_find(m_, l_) ({ \
-  SiteMap *_m = (m_); long _p = SITEPOS(l_); \
-  __CPROVER_assume(0 <= _p && _p <= _m->n); \
-  if (_p < _m->n) __CPROVER_assume(SM_label[_p] == (l_)); \
-  (SiteMapIt){ _m, _p }; })
-/* operator[]: reference to the mapped pointer (a temporary cell; the Site through a temporary copy) */
+  __CPROVER_assume(0 <= SITEPOS(l_) && SITEPOS(l_) <= (m_)->n); \
+  if (SITEPOS(l_) < (m_)->n) __CPROVER_assume(SM_label(SITEPOS(l_)) == (l_)); \
+  (SiteMapIt){ (m_), SITEPOS(l_) }; })
+/* operator[]: reference to the mapped pointer (a temporary cell holding &SM_site[position]) */
 #define SiteMap_at(m_, l_) ({ \
-  SiteMap *_m = (m_); long _p = SITEPOS(l_); \
-  __CPROVER_assume(0 <= _p && _p <= _m->n); \
-  __CPROVER_assert(_p < _m->n, "std::map operator[] used only with an existing key (else it inserts a null Site*)"); \
-  struct Lattice_Site **_r = &(struct Lattice_Site *){ (struct Lattice_Site *)0 }; \
-  if (_p < _m->n) { __CPROVER_assume(SM_label[_p] == (l_)); SM_ASSUME_AT(_m, _p); \
-    _r = &(struct Lattice_Site *){ &(struct Lattice_Site){ SM_label[_p], SM_orb[_p], SM_spin[_p] } }; } \
-  _r; })
+  __CPROVER_assume(0 <= SITEPOS(l_) && SITEPOS(l_) <= (m_)->n); \
+  __CPROVER_assert(SITEPOS(l_) < (m_)->n, "std::map operator[] used only with an existing key (else it inserts a null Site*)"); \
+  if (SITEPOS(l_) < (m_)->n) { __CPROVER_assume(SM_label(SITEPOS(l_)) == (l_)); SM_ASSUME_AT((m_), SITEPOS(l_)); } \
+  &(struct Lattice_Site *){ SITEPOS(l_) < (m_)->n ? &(struct Lattice_Site[1]){ SM_site[SITEPOS(l_)] }[0] : (struct Lattice_Site *)0 }; })
 
 /* proof of lemma L1 by induction over k = n..0 (checked by CBMC: harness h_lemma_sitemap_sqsum in specs/indexclass.c) */
+#ifndef SM_NO_SQ
 void SiteMap_lemma_sqsum(SiteMap *m)
 __CPROVER_requires(__CPROVER_is_fresh(m, sizeof(*m)) && SiteMap_wf_base(m) && m->smax_on)
 __CPROVER_assigns()
@@ -147,4 +155,5 @@ __CPROVER_ensures(SM_SQSUM(0) == SM_suf[0])
     SM_ASSUME_AT(m, k);     /* the definitions A4 and the domain restriction A5 at site k */
   }
 }
+#endif
 #endif
